@@ -95,6 +95,7 @@ def check(ctx):
     check_cursor_use(ctx, ANCHOR_MODULES, floor=3)
     check_tiles(ctx, ANCHOR_MODULES, floor=2)
     check_scatter(ctx)
+    check_unsort(ctx)
     from .C13 import check_index_spaces
     check_index_spaces(ctx)
     sweep_generic_rules(ctx, ANCHOR_MODULES)
@@ -315,3 +316,17 @@ def sweep_generic_rules(ctx, anchored_modules):
                 continue
     ctx.note(f'thorough sweep: generic structural rules evaluated on {n} '
              'further instances outside the anchored modules (advisory)')
+
+
+def check_unsort(ctx, rule='R-PERM/unsort-pair'):
+    """row batches read in sorted order are put back with the matching
+    permutation (sa/rules/perm.py)"""
+    from ..rules.perm import check_unsort_pairs
+    n = 0
+    for fi in ctx.db.iter_functions():
+        if fi.module.short in ('anndata_iterator.anndata_iterator',
+                               'utils.sparse_utils'):
+            n += check_unsort_pairs(ctx, fi, rule)
+    if n < 1:
+        raise AnalysisError('no sort / un-sort pair found in the row '
+                            'batch readers')
